@@ -133,11 +133,24 @@ func (t *totality) panics(reachFromOps func(f *types.Func) bool) {
 						missing, _, cases := p.switchCoverage(ts, iface)
 						nilOK := p.nilGuarded(enclosing[ts], indexOf(enclosing[ts], ts), identOf(op)) || caseNilReturns(ts)
 						if t.switchReach != nil {
-							if ok, why := t.switchReach(fb, ts, missing); ok {
+							switch verdict, why := t.switchReach(fb, ts, missing); verdict {
+							case 1:
 								c.OK(srule, skey, ts.Pos(), why)
 								c.OK(rule, key, st.Pos(), "unreachable: "+why)
 								continue
+							case -1:
+								c.Bad(srule, skey, ts.Pos(), why)
+								c.Bad(rule, key, st.Pos(), "reachable: "+why)
+								continue
 							}
+						}
+						// a missing case is a reachable panic when the operand is input data;
+						// for a local that a helper produced, which kinds can arrive is the
+						// helper's business and not decided here
+						if (len(missing) > 0 || !nilOK) && !p.newDataRoots(fb).rooted(op, 0) {
+							c.Unk(srule, skey, ts.Pos(), fmt.Sprintf("%d cases do not cover every %s, but the operand is a local computed by a helper, not input data: which kinds reach the default panic is not decided", cases, iface))
+							c.Unk(rule, key, st.Pos(), "default clause of a non-exhaustive type switch over a helper's result")
+							continue
 						}
 						switch {
 						case len(missing) > 0:
